@@ -108,7 +108,8 @@ def conduct(job):
             ms = monitors(job.get("flags"))
             case = dict(wf=wf, inputs=inputs, oseed=h64(job.get("gseed", 0), seed, "o") % 100000,
                         p_fail=job.get("p_fail", 0.2), exotic=job.get("exotic", 0.0))
-            run = explore.make_run(case, ms, model=m, ack_chain=bool(job.get("ack_chain")) and sched % 2 == 1)
+            ack = job.get("ack_chain")
+            run = explore.make_run(case, ms, model=m, ack_chain=(ack if ack == "lazy" else bool(ack) and sched % 2 == 1))
             hook = Injector(h64(job.get("gseed", 0), seed, sched, "inj"), job.get("ctl")) if job.get("ctl") else None
             pol = explore.Policy(pseed=h64(job.get("gseed", 0), seed, sched, "p"), lazy_pct=lazy)
             explore.run_free(run, pol, hook=hook)
